@@ -582,7 +582,22 @@ def hermitian(chk, fn, q):
         raise AnalysisError(f'{q}: no accumulations in the kz loop')
     cases = {'k=0': [lambda K, N: [-K, K], 1], '0<k,2k<n': [lambda K, N: [K - 1, N - K.scale(2) - 1], 2],
              '2k=n': [lambda K, N: [K.scale(2) - N, N - K.scale(2), K - 1], 1]}
+    # the accumulations of one cell may be spread over the arms of an `if` on the kz plane (one arm per case): per case, the
+    # contributions of all accumulations of that cell whose kz-dependent guards hold are added up
+    groups = {}
     for a in accs:
+        groups.setdefault(unparse(a.target), []).append(a)
+
+    def kz_guards(a):
+        out = []
+        ch, p_ = a, getattr(a, '_parent', None)
+        while p_ is not None and p_ is not kl[0]:
+            if isinstance(p_, ast.If):
+                out.append((p_.test, ch in p_.body))
+            ch, p_ = p_, getattr(p_, '_parent', None)
+        return out
+    for tgt, members in groups.items():
+        a = members[0]
         arr = unparse(a.target.value)
         got = {}
         for cname, (mk, want) in cases.items():
@@ -601,12 +616,30 @@ def hermitian(chk, fn, q):
                         v_ = eng.ev(s_.value, st, quiet=True)
                         if isinstance(v_, Int):
                             st.env[s_.targets[0].id] = v_
+            total = Poly.const(0)
             try:
-                p = _case_eval(a.value, st, eng, defs)
+                for m_ in members:
+                    live = True
+                    for test, in_body in kz_guards(m_):
+                        reads = set()
+                        for x in ast.walk(test):
+                            if isinstance(x, ast.Name):
+                                reads.add(x.id)
+                                if x.id in defs:
+                                    reads |= names_in(defs[x.id])
+                        if not (reads & {kv, nname}):
+                            continue                   # a guard on the bin ranges: the same for every case
+                        t = _truth(test, st, eng, defs)
+                        if t is None:
+                            raise NotInDomain(f'cannot decide {unparse(test)} in this case')
+                        if t != in_body:
+                            live = False
+                    if live:
+                        total = total + _case_eval(m_.value, st, eng, defs)
             except NotInDomain as e:
                 got[cname] = f'? ({e})'
                 continue
-            got[cname] = p
+            got[cname] = total
         # factor out the per-mode value: weight = p / p(k... ) : the three cases must be in ratio 1 : 2 : 1
         vals = list(got.values())
         ok = all(isinstance(v, Poly) for v in vals)
@@ -667,6 +700,34 @@ def _truth(test, st, eng, defs):
     if c.ff is not None and not prove.consistent(st, c.ff):
         return True
     return None
+
+
+def _row_sum_loop(fn, target, source):
+    """target = zeros(n0, integer); for i in range(n0): for j in range(n1): target[i] += source[i, j]   with (.., n0, n1) the trailing
+    extents of source's allocation: the explicit form of target = source.sum(axis=1) (after the thread axis was summed away)."""
+    al = [n for n in fn.body if isinstance(n, ast.Assign) and unparse(n.targets[0]) == target and isinstance(n.value, ast.Call)]
+    sal = [n for n in walk_no_nested(fn) if isinstance(n, ast.Assign) and unparse(n.targets[0]) == source and isinstance(n.value, ast.Call)
+           and dotted(n.value.func) in ('np.zeros',) and n.value.args and isinstance(n.value.args[0], ast.Tuple) and len(n.value.args[0].elts) == 3]
+    if len(al) != 1 or len(sal) != 1 or dotted(al[0].value.func) != 'np.zeros' or not al[0].value.args:
+        return False
+    n0, n1 = [unparse(e) for e in sal[0].value.args[0].elts[1:]]
+    dt = [unparse(k.value) for k in al[0].value.keywords if k.arg == 'dtype']
+    if unparse(al[0].value.args[0]) != n0 or dt not in (['np.int64'], ['int']):
+        return False
+    stores = [n for n in walk_no_nested(fn) if isinstance(n, (ast.Assign, ast.AugAssign)) and n is not al[0]
+              and any(isinstance(x, ast.Name) and x.id == target and isinstance(x.ctx, (ast.Store, ast.Load)) and isinstance(getattr(x, '_parent', None), ast.Subscript)
+                      and isinstance(x._parent.ctx, ast.Store) for x in ast.walk(n))]
+    if len(stores) != 1 or not isinstance(stores[0], ast.AugAssign) or not isinstance(stores[0].op, ast.Add):
+        return False
+    a = stores[0]
+    inner = getattr(a, '_parent', None)
+    outer = getattr(inner, '_parent', None)
+    if not (isinstance(inner, ast.For) and isinstance(outer, ast.For) and outer in fn.body and inner.body == [a] and outer.body == [inner]
+            and isinstance(inner.target, ast.Name) and isinstance(outer.target, ast.Name)):
+        return False
+    i, j = outer.target.id, inner.target.id
+    return unparse(outer.iter) == f'range({n0})' and unparse(inner.iter) == f'range({n1})' and unparse(a.target) == f'{target}[{i}]' \
+        and unparse(a.value) == f'{source}[{i}, {j}]' and outer.lineno > al[0].lineno
 
 
 # ------------------------------------------------------------------------ R5
@@ -734,7 +795,7 @@ def accumulators(chk, fn, q):
         # l=0 pole = mu-sum of the wedge sums, divided by the mu-summed counts
         txt = [unparse(s) for s in walk_no_nested(fn) if isinstance(s, ast.stmt)]
         ok0 = any(t == 'weighted_counts_poles[ip] = weighted_counts.sum(axis=1)' for t in txt) and \
-            any(t == 'counts_poles = counts.sum(axis=1)' for t in txt)
+            (any(t in ('counts_poles = counts.sum(axis=1)', 'counts_poles = np.sum(counts, axis=1)') for t in txt) or _row_sum_loop(fn, 'counts_poles', 'counts'))
         order = False
         for s in fn.body:
             pass
